@@ -917,6 +917,77 @@ def main(tier):
                    detail=None if ok else "the option is stored, copied and printed but no method reads it: what the caller asked through it is ignored",
                    key="R19.12|%s::%s" % (K, fl))
     chk.floor("R19.12", n12, 4)
+    # R19.13: a run starts with empty registries.  The variables a run creates are recorded in `_listVariablePerm*` so that a FAILURE of
+    # that run can delete them; the registries must be emptied when a new run starts (in _check / _preprocess of the class that owns
+    # them), otherwise a calculator object that is run again and fails deletes the results of its earlier, successful run
+    n13 = 0
+    for K in sorted(prog.classes):
+        perm = [fd["n"] for fd in prog.classes[K].get("fields", []) if fd["n"].startswith("_listVariablePerm")]
+        if not perm:
+            continue
+        used = any(c.get("callee") == K + "::_addVariableDb" for f in prog.funcs if f.body is not None and f.cls != K for c in f.calls())
+        if not used:
+            chk.notes.append("R19.13: %s::_addVariableDb is never called by a calculator of the analysed units: its registries stay empty, not judged" % K)
+            continue
+        starts = [f for f in prog.funcs if f.cls == K and f.body is not None and f.short in ("_check", "_preprocess", "run")]
+        for fl in perm:
+            n13 += 1
+            ok = any(x["k"] == "MCall" and (x.get("callee") or "").split("::")[-1] == "clear" and call_obj(x) is not None and
+                     call_obj(x)["k"] == "MemberExpr" and call_obj(x)["n"] == fl for f in starts for x in f.walk())
+            chk.ob("R19.13", "%s::%s is emptied when a run starts" % (K, fl), starts[0].loc() if starts else K, ok,
+                   detail=None if ok else "the registry is only emptied by the roll-back: after a successful run it still lists the results; if the same object is run "
+                   "again and fails, the roll-back deletes the results of the earlier success", key="R19.13|%s::%s" % (K, fl))
+    chk.floor("R19.13", n13, 2)
+    # R19.14: as many columns are created as are named.  `M = _addVariableDb(W, st, loc, idx, NUMBER)` allocates NUMBER columns from the
+    # identifier M; `_renameVariable(W, names, loc, NVAR, M, qualifier, COUNT)` names NVAR x COUNT of them: a class that allocates ONE
+    # column and names `getNbSimu()` of them writes the other simulations into columns that do not exist (simfft with nbsimu > 1)
+    made = {}
+    for f in prog.funcs:
+        if f.body is None or not f.cls:
+            continue
+        for x in f.walk():
+            if x["k"] == "Assign" and x.get("op") == "=" and x["c"][0] is not None and x["c"][0]["k"] == "MemberExpr" and x["c"][1] is not None:
+                for y in walk(x["c"][1]):
+                    if y["k"] == "MCall" and (y.get("callee") or "").endswith("::_addVariableDb"):
+                        a_ = call_args(y)
+                        num = show(a_[4]) if len(a_) > 4 and a_[4] is not None and a_[4]["k"] != "DefaultArg" else "1"
+                        made.setdefault((f.cls, x["c"][0]["n"]), []).append((num, _guard(f, x)))
+    n14 = 0
+    for f in sorted(prog.funcs, key=lambda x: (x.file, x.line)):
+        if f.body is None or not f.cls:
+            continue
+        for c in f.calls():
+            if not (c.get("callee") or "").endswith("::_renameVariable"):
+                continue
+            a = call_args(c)
+            if len(a) < 7 or a[4] is None:
+                continue
+            m = a[4]
+            while m is not None and m["k"] == "Cast":
+                m = m["c"][0]
+            if m is None or m["k"] != "MemberExpr":
+                continue
+            cands = []
+            for K in [f.cls] + prog.bases(f.cls):
+                cands += made.get((K, m["n"]), [])
+            if not cands:
+                continue
+            g2 = _guard(f, c)
+            nums = [n_ for n_, g in cands if g == g2] or [n_ for n_, g in cands]
+            nvar, count = show(a[3]), show(a[6])
+            total_one = nvar == "1" and count == "1"
+            n14 += 1
+            # ... and the class does write several columns from that identifier (`M + isimu` handed to a writer)
+            K_meths = [g_ for g_ in prog.funcs if g_.body is not None and g_.cls in [f.cls] + prog.bases(f.cls)]
+            several = any(y["k"] == "BinOp" and y.get("op") == "+" and any(z["k"] == "MemberExpr" and z["n"] == m["n"] for z in walk(y)) and
+                          any(z["k"] == "DeclRefExpr" for z in walk(y)) for g_ in K_meths for y in g_.walk())
+            bad = all(n_ == "1" for n_ in nums) and not total_one and several
+            chk.analysed(f)
+            chk.ob("R19.14", "%s: as many columns are created for `%s` as are named" % (f.name, m["n"]), f.loc(c), not bad,
+                   detail=None if not bad else "`%s` is allocated with 1 column and _renameVariable names %s x %s of them from that identifier: the results of the "
+                   "other simulations / variables are written into columns that were never created" % (m["n"], nvar, count),
+                   key="R19.14|%s|%s" % (f.name, m["n"]))
+    chk.floor("R19.14", n14, 8)
     # R19.10 (rule K): the columns a calculation memorises, reads, writes and deletes are designated by their persistent identifiers,
     # never by a column index (uidkinds.py): after an earlier deletion the calculation would work on - and restore the roles of -
     # other columns than its own
